@@ -2,8 +2,8 @@ package main
 
 import (
 	"bytes"
-	stdjson "encoding/json"
 	"encoding/hex"
+	stdjson "encoding/json"
 	"fmt"
 	"math/big"
 	"reflect"
@@ -240,6 +240,29 @@ func c16Literals(c *Ctx) []string {
 	return out
 }
 
+type c16F3[T any] struct {
+	X T `json:"x,string"`
+	Y T `json:"y"`
+	Z T `json:"z,string"`
+}
+type c16P3[T any] struct {
+	P *T `json:"p,string"`
+	Q T  `json:"q,string,omitempty"`
+	R *T `json:"r,omitempty"`
+}
+type c16L2[T any] struct {
+	A int `json:"a"`
+	B T   `json:"b,string"`
+}
+type c16L2o[T any] struct {
+	A int `json:"a"`
+	B T   `json:"b,omitempty"`
+}
+type c16L2p[T any] struct {
+	A int `json:"a"`
+	B *T  `json:"b,string"`
+}
+
 type c16Str[T any] struct {
 	A T `json:",string"`
 }
@@ -282,6 +305,36 @@ func c16Oracle[T int8 | int16 | int32 | int64 | int | uint8 | uint16 | uint32 | 
 		}
 		stdb, _ := stdjson.Marshal(oe{v})
 		check("omitempty", oe{v}, string(stdb))
+		// struct positions (first, middle, last member; string tag, pointer, omitempty) through the four
+		// interpreters: each position and option has its own opcode in each of them
+		vv := v
+		for si, sv := range []interface{}{
+			c16F3[T]{X: v, Y: v, Z: v}, &c16F3[T]{X: v, Y: v, Z: v},
+			c16P3[T]{P: &vv, Q: v, R: &vv}, c16P3[T]{Q: v}, []c16F3[T]{{X: v, Y: v, Z: v}},
+			c16L2[T]{A: 1, B: v}, c16L2o[T]{A: 1, B: v}, c16L2p[T]{A: 1, B: &vv},
+		} {
+			want1, _ := stdjson.Marshal(sv)
+			want2, _ := stdjson.MarshalIndent(sv, "", " ")
+			for ei, f := range []func() ([]byte, error){
+				func() ([]byte, error) { return json.Marshal(sv) },
+				func() ([]byte, error) { return json.MarshalIndent(sv, "", " ") },
+				func() ([]byte, error) {
+					b, err := json.MarshalWithOption(sv, json.Colorize(c13Scheme))
+					return c13Strip.ReplaceAll(b, nil), err
+				},
+				func() ([]byte, error) {
+					b, err := json.MarshalIndentWithOption(sv, "", " ", json.Colorize(c13Scheme))
+					return c13Strip.ReplaceAll(b, nil), err
+				},
+			} {
+				got, err, pan := safeMarshal(f)
+				w := want1
+				if ei%2 == 1 {
+					w = want2
+				}
+				c.Oracle(fmt.Sprintf("print/struct%d/vm%d", si, ei), fmt.Sprintf("%s(%s)", tn, want), fmt.Sprintf("%s err=%v panic=%s", got, err, pan), string(w), pan == "" && err == nil && bytes.Equal(got, w), "")
+			}
+		}
 	}
 	// parsing
 	for _, l := range lits {
